@@ -20,10 +20,44 @@ Proof.
   - right; apply IH; exact H.
 Qed.
 
+
+(* ---- the memo key ---------------------------------------------------------------- *)
+Fixpoint no_at (s : string) : bool :=
+  match s with EmptyString => true | String c r => negb (Ascii.eqb c "@"%char) && no_at r end.
+
+Lemma no_at_app_at x y : no_at (x ++ String "@"%char y)%string = false.
+Proof. induction x as [|c x IH]; simpl; [reflexivity|]. rewrite IH. apply andb_false_r. Qed.
+
+Lemma no_at_strip s : no_at (strip_q1 s) = true -> no_at s = true.
+Proof.
+  unfold strip_q1. destruct s as [|a [|b r]]; try (intro H; exact H).
+  unfold is_q1. destruct (Ascii.eqb a "Q") eqn:Ea; [|intro H; exact H].
+  destruct (Ascii.eqb b "1") eqn:Eb; [|intro H; exact H].
+  apply Ascii.eqb_eq in Ea, Eb. subst. simpl. intro H; exact H.
+Qed.
+
+(* URL ++ "@" ++ checksum determines the checksum when neither checksum contains '@' *)
+Lemma key_chk : forall u1 u2 c1 c2,
+  (u1 ++ String "@"%char c1)%string = (u2 ++ String "@"%char c2)%string -> no_at c1 = true -> no_at c2 = true -> c1 = c2.
+Proof.
+  induction u1 as [|a u1 IH]; intros u2 c1 c2 E N1 N2.
+  - destruct u2 as [|b u2]; simpl in E.
+    + inversion E; reflexivity.
+    + inversion E; subst. rewrite no_at_app_at in N1. discriminate.
+  - destruct u2 as [|b u2]; simpl in E.
+    + inversion E; subst. rewrite no_at_app_at in N2. discriminate.
+    + inversion E; subst. eapply IH; eauto.
+Qed.
+
+Lemma memo_key_chk h0 h : memo_key h0 = memo_key h -> no_at (h_chk h) = true -> no_at (h_chk h0) = true -> h_chk h0 = h_chk h.
+Proof. unfold memo_key. simpl. intros E N N0. eapply key_chk; eauto. Qed.
+
 Section WithOracles.
   Variable sha1 : list N -> list N.
   Variable sha256 : list N -> list N.
-  Notation Chain := (Chain sha1 sha256).
+  Variable b64 : string -> option (list N).
+  Notation Chain := (Chain sha1 sha256 b64).
+  Notation h_sum := (h_sum b64).
   Notation file_ok := (file_ok sha1).
 
   Lemma file_ok_b_iff f : file_ok_b sha1 f = true <-> file_ok f.
@@ -36,10 +70,10 @@ Section WithOracles.
     - destruct (H eq_refl) as [_ H']. apply bytes_eqb_eq. apply H'. reflexivity.
   Qed.
 
-  Lemma chain_tags_iff sfx h x : chain_tags sha1 sha256 sfx h x = [] <-> Chain h x.
+  Lemma chain_tags_iff sfx h x : chain_tags sha1 sha256 b64 sfx h x = [] <-> Chain h x.
   Proof.
     unfold chain_tags, PkgAuthSpec.Chain.
-    assert (control_ok_b sha1 h x = true <-> h_sum h = Some (sha1 (c_raw (x_ctl x)))) as C.
+    assert (control_ok_b sha1 b64 h x = true <-> h_sum h = Some (sha1 (c_raw (x_ctl x)))) as C.
     { unfold control_ok_b. destruct (h_sum h) as [w|]; simpl; [|split; discriminate].
       rewrite bytes_eqb_eq. split; intro H; [subst; reflexivity | inversion H; reflexivity]. }
     assert (datahash_ok_b sha256 x = true <->
@@ -50,7 +84,7 @@ Section WithOracles.
         apply String.eqb_eq. apply H; [exact Hin|]. intro K; subst. discriminate. }
     assert (files_ok_b sha1 x = true <-> forall f, In f (d_files (x_dat x)) -> file_ok f) as F.
     { unfold files_ok_b. rewrite forallb_forall. split; intros H f Hf; apply file_ok_b_iff; apply H; exact Hf. }
-    destruct (control_ok_b sha1 h x) eqn:E1; destruct (datahash_ok_b sha256 x) eqn:E2; destruct (files_ok_b sha1 x) eqn:E3;
+    destruct (control_ok_b sha1 b64 h x) eqn:E1; destruct (datahash_ok_b sha256 x) eqn:E2; destruct (files_ok_b sha1 x) eqn:E3;
       simpl; split; intro H; try discriminate; try reflexivity.
     - split; [apply C; reflexivity|]. split; [apply Dh; reflexivity | apply F; reflexivity].
     - destruct H as (_ & _ & H). apply F in H. discriminate.
@@ -85,7 +119,7 @@ Section WithOracles.
   Qed.
 
   Lemma verify_expanded_spec h ch dh c :
-    verify_expanded h ch dh c = true ->
+    verify_expanded b64 h ch dh c = true ->
     h_sum h = Some ch /\ forall v, In v (c_datahash c) -> v <> "" -> v = hex dh.
   Proof.
     unfold verify_expanded. destruct (h_sum h) as [w|]; [|discriminate]. intro H.
@@ -106,7 +140,7 @@ Section WithOracles.
 
   (* a hit hands back what is stored under the expected names; nothing is hashed *)
   Lemma cached_package_by_name k h x :
-    cached_package k h = Some x ->
+    cached_package b64 k h = Some x ->
     h_q1 h = true /\ exists sum dh,
       h_sum h = Some sum /\ In (sum, x_ctl x) (k_ctl k) /\
       c_datahash (x_ctl x) = [dh] /\ In (dh, x_dat x) (k_dat k) /\ x_ctl_hash x = sum.
@@ -120,7 +154,7 @@ Section WithOracles.
     split; [reflexivity|]. exists sum, dh. apply assoc_b_in in A. apply assoc_s_in in Ad. auto.
   Qed.
 
-  Lemma cached_package_chain k h x : cache_ok k -> cached_package k h = Some x -> Chain h x.
+  Lemma cached_package_chain k h x : cache_ok k -> cached_package b64 k h = Some x -> Chain h x.
   Proof.
     intros [Kc Kd] H. apply cached_package_by_name in H.
     destruct H as (_ & sum & dh & Hs & Ic & Dh & Id & _).
@@ -168,15 +202,15 @@ Section WithOracles.
   (* ---- expandPackage ------------------------------------------------------------- *)
   Lemma expand_uncached_chain k h served x k' :
     opt_cache_ok k -> opt_dst_same k served ->
-    expand_uncached sha1 sha256 k h served = (XOk x, k') -> Chain h x /\ opt_cache_ok k'.
+    expand_uncached sha1 sha256 b64 k h served = (XOk x, k') -> Chain h x /\ opt_cache_ok k'.
   Proof.
     intros Ok Same. unfold expand_uncached.
-    destruct (match k with Some kc => cached_package kc h | None => None end) as [x0|] eqn:Hit.
+    destruct (match k with Some kc => cached_package b64 kc h | None => None end) as [x0|] eqn:Hit.
     - intro H. injection H as Hx Hk. subst x0 k'. split; [|exact Ok].
       destruct k as [kc|]; [|discriminate]. eapply cached_package_chain; eauto.
     - destruct served as [a|]; [|discriminate].
       destruct (check_sums sha1 (d_files (a_dat a))) eqn:Cs; cbn [negb]; [|discriminate].
-      destruct (verify_expanded h (sha1 (c_raw (a_ctl a))) (sha256 (d_raw (a_dat a))) (a_ctl a)) eqn:V; cbn [negb]; [|discriminate].
+      destruct (verify_expanded b64 h (sha1 (c_raw (a_ctl a))) (sha256 (d_raw (a_dat a))) (a_ctl a)) eqn:V; cbn [negb]; [|discriminate].
       apply verify_expanded_spec in V. destruct V as [V1 V2].
       destruct k as [kc|].
       + destruct (cache_package kc (a_ctl a) (a_dat a) (sha1 (c_raw (a_ctl a))) (sha256 (d_raw (a_dat a)))) as [kc' x1] eqn:CP.
@@ -190,23 +224,23 @@ Section WithOracles.
 
   Lemma expand_uncached_keeps_cache_ok k h served r k' :
     opt_cache_ok k -> opt_dst_same k served ->
-    expand_uncached sha1 sha256 k h served = (r, k') -> opt_cache_ok k'.
+    expand_uncached sha1 sha256 b64 k h served = (r, k') -> opt_cache_ok k'.
   Proof.
     intros Ok Same H. destruct r as [x|e]; [eapply expand_uncached_chain; eauto|].
     unfold expand_uncached in H.
-    destruct (match k with Some kc => cached_package kc h | None => None end); [discriminate|].
+    destruct (match k with Some kc => cached_package b64 kc h | None => None end); [discriminate|].
     destruct served as [a|]; [|inversion H; subst; exact Ok].
     destruct (negb (check_sums sha1 (d_files (a_dat a)))); [inversion H; subst; exact Ok|].
-    destruct (negb (verify_expanded h _ _ (a_ctl a))); [inversion H; subst; exact Ok|].
+    destruct (negb (verify_expanded b64 h _ _ (a_ctl a))); [inversion H; subst; exact Ok|].
     destruct k as [kc|]; [|discriminate].
     destruct (cache_package kc _ _ _ _); discriminate.
   Qed.
 
   (* a per-file mismatch aborts the fetch path *)
   Lemma expand_uncached_file_mismatch k h a f d :
-    (match k with Some kc => cached_package kc h | None => None end) = None ->
+    (match k with Some kc => cached_package b64 kc h | None => None end) = None ->
     In f (d_files (a_dat a)) -> f_kind f = FReg -> f_sum f = SumSome d -> d <> sha1 (f_body f) ->
-    expand_uncached sha1 sha256 k h (Some a) = (XErr ESums, k).
+    expand_uncached sha1 sha256 b64 k h (Some a) = (XErr ESums, k).
   Proof.
     intros Miss Hf K S NE. unfold expand_uncached. rewrite Miss.
     rewrite (check_sums_mismatch _ f d Hf K S NE). reflexivity.
@@ -216,31 +250,41 @@ Section WithOracles.
   Lemma chain_same_sum h h' x : h_sum h = h_sum h' -> Chain h x -> Chain h' x.
   Proof. unfold PkgAuthSpec.Chain. intros E (A & B & C). rewrite <- E. auto. Qed.
 
-  (* the process memo: every stored success satisfies the chain for the
-     checksum [su] associates with its URL *)
-  Definition memo_inv (su : string -> option (list N)) (m : memo) : Prop :=
-    forall u r x, assoc_s u m = Some r -> r = XOk x ->
-      exists h0, h_sum h0 = su u /\ Chain h0 x.
+  (* the process memo: every stored success satisfies the chain for a request
+     with that key *)
+  Definition memo_inv (m : memo) : Prop :=
+    forall key r x, assoc_s key m = Some r -> r = XOk x ->
+      exists h0, memo_key h0 = key /\ Chain h0 x.
 
-  Lemma expand_package_chain su m k h served r k' m' :
-    memo_inv su m -> opt_cache_ok k -> opt_dst_same k served ->
-    h_sum h = su (h_url h) ->
-    expand_package sha1 sha256 m k h served = (r, k', m') ->
-    (forall x, r = XOk x -> Chain h x) /\ opt_cache_ok k' /\ memo_inv su m'.
+  (* base64 text never contains '@' *)
+  Definition b64_alphabet : Prop := forall s, b64 s <> None -> no_at s = true.
+
+  Lemma chain_no_at h x : b64_alphabet -> Chain h x -> no_at (h_chk h) = true.
   Proof.
-    intros MI Ok Same Hs. unfold expand_package. destruct k as [kc|].
-    - destruct (assoc_s (h_url h) m) as [r0|] eqn:A.
+    intros AB (A & _). apply no_at_strip. apply AB. unfold PkgAuth.h_sum in A. rewrite A. discriminate.
+  Qed.
+
+  Lemma expand_package_chain m k h served r k' m' :
+    b64_alphabet -> no_at (h_chk h) = true ->
+    memo_inv m -> opt_cache_ok k -> opt_dst_same k served ->
+    expand_package sha1 sha256 b64 m k h served = (r, k', m') ->
+    (forall x, r = XOk x -> Chain h x) /\ opt_cache_ok k' /\ memo_inv m'.
+  Proof.
+    intros AB NA MI Ok Same. unfold expand_package. destruct k as [kc|].
+    - destruct (assoc_s (memo_key h) m) as [r0|] eqn:A.
       + intro H. inversion H; subst. split; [|split; assumption].
-        intros x E. destruct (MI _ _ x A E) as (h0 & S0 & C0). eapply chain_same_sum; [|exact C0]. congruence.
-      + destruct (expand_uncached sha1 sha256 (Some kc) h served) as [r1 k1] eqn:EU.
+        intros x E. destruct (MI _ _ x A E) as (h0 & K0 & C0).
+        eapply chain_same_sum; [|exact C0]. unfold PkgAuth.h_sum. f_equal. f_equal.
+        eapply memo_key_chk; eauto. eapply chain_no_at; eauto.
+      + destruct (expand_uncached sha1 sha256 b64 (Some kc) h served) as [r1 k1] eqn:EU.
         intro H. inversion H; subst.
         assert (forall x, r = XOk x -> Chain h x) as CH.
         { intros x E; subst. eapply expand_uncached_chain; eauto. }
         split; [exact CH|]. split; [eapply expand_uncached_keeps_cache_ok; eauto|].
-        intros u r2 x A2 E2. simpl in A2. destruct (String.eqb u (h_url h)) eqn:Eu.
-        * apply String.eqb_eq in Eu; subst u. inversion A2; subst. exists h. split; [exact Hs | apply CH; reflexivity].
+        intros u r2 x A2 E2. simpl in A2. destruct (String.eqb u (memo_key h)) eqn:Eu.
+        * apply String.eqb_eq in Eu; subst u. inversion A2; subst. exists h. split; [reflexivity | apply CH; reflexivity].
         * eapply MI; eauto.
-    - destruct (expand_uncached sha1 sha256 None h served) as [r1 k1] eqn:EU.
+    - destruct (expand_uncached sha1 sha256 b64 None h served) as [r1 k1] eqn:EU.
       intro H. inversion H; subst. split; [|split; [eapply expand_uncached_keeps_cache_ok; eauto | exact MI]].
       intros x E; subst. eapply expand_uncached_chain; eauto.
   Qed.
@@ -302,23 +346,21 @@ Proof.
   exfalso. apply (Hg eq_refl). reflexivity.
 Qed.
 
-(* ---- the process memo defeats the chain (finding C05-F1) ------------------------- *)
+(* ---- the joined memo key is ambiguous (finding C05-F2) ------------------------------ *)
 Definition idf (b : list N) : list N := b.
-Definition wit_ctl (n : N) : control := {| c_raw := [n]; c_desc := ""; c_datahash := [] |}.
-Definition wit_apk (n : N) : apkfile := {| a_ctl := wit_ctl n; a_dat := {| d_raw := [n]; d_files := [] |} |}.
-Definition wit_handle (n : N) : handle := {| h_url := "u"; h_q1 := true; h_sum := Some [n] |}.
+Definition wit_b64 (s : string) : option (list N) := if String.eqb s "1" then Some [1]%N else None.
+Definition wit_apk : apkfile :=
+  {| a_ctl := {| c_raw := [1]%N; c_desc := ""; c_datahash := [] |}; a_dat := {| d_raw := [1]%N; d_files := [] |} |}.
+Definition wit_h1 : handle := {| h_url := "a@b"; h_chk := "1" |}.
+Definition wit_h2 : handle := {| h_url := "a"; h_chk := "b@1" |}.
 
-Lemma memo_by_url_refutes_chain :
-  exists h1 h2 a1 a2 r1 k1 m1 x k2 m2,
-    h_url h1 = h_url h2 /\
-    expand_package idf idf [] (Some empty_cache) h1 (Some a1) = (r1, k1, m1) /\
-    expand_package idf idf m1 k1 h2 (Some a2) = (XOk x, k2, m2) /\
-    Chain idf idf h2 (match expand_uncached idf idf (Some empty_cache) h2 (Some a2) with (XOk y, _) => y | _ => x end) /\
-    ~ Chain idf idf h2 x.
+Lemma memo_key_ambiguity_refutes_chain :
+  exists r1 k1 m1 x k2 m2,
+    expand_package idf idf wit_b64 [] (Some empty_cache) wit_h1 (Some wit_apk) = (r1, k1, m1) /\
+    expand_package idf idf wit_b64 m1 k1 wit_h2 None = (XOk x, k2, m2) /\
+    fst (expand_uncached idf idf wit_b64 k1 wit_h2 (Some wit_apk)) = XErr EVerify /\
+    ~ Chain idf idf wit_b64 wit_h2 x.
 Proof.
-  exists (wit_handle 1), (wit_handle 2), (wit_apk 1), (wit_apk 2).
-  eexists _, _, _, _, _, _. split; [reflexivity|]. split; [vm_compute; reflexivity|].
-  split; [vm_compute; reflexivity|]. split.
-  - vm_compute. split; [reflexivity|]. split; [intros ? []|intros ? []].
-  - vm_compute. intros (A & _). discriminate A.
+  eexists _, _, _, _, _, _. split; [vm_compute; reflexivity|]. split; [vm_compute; reflexivity|].
+  split; [vm_compute; reflexivity|]. vm_compute. intros (A & _). discriminate A.
 Qed.
